@@ -829,7 +829,7 @@ class Switch(schemdraw.elements.elements.Element2Term):
     def toggle(self) -> None:
         if self.state == self.state.OPEN:
             self.close()
-        if self.state == self.state.CLOSED:
+        elif self.state == self.state.CLOSED:
             self.open()
 
 class Ground(Node):
